@@ -258,3 +258,179 @@ mutual
 end
 
 end XotModel
+
+namespace XotModel
+open HTree Spec
+
+/-! ### No text node carries the handle of the edited site -/
+
+mutual
+  /-- No text node of the tree has handle `p`. -/
+  def siteOk (p : Nat) : HTree → Bool
+    | .node h v ks => (h != p || !v.isText) && siteOkList p ks
+  def siteOkList (p : Nat) : List HTree → Bool
+    | [] => true
+    | k :: ks => siteOk p k && siteOkList p ks
+end
+
+theorem siteOk_node (p h : Nat) (v : Value) (ks : List HTree) :
+    siteOk p (.node h v ks) = ((h != p || !v.isText) && siteOkList p ks) := by simp [siteOk]
+theorem siteOkList_nil (p : Nat) : siteOkList p [] = true := by simp [siteOkList]
+theorem siteOkList_cons (p : Nat) (k : HTree) (ks : List HTree) :
+    siteOkList p (k :: ks) = (siteOk p k && siteOkList p ks) := by simp [siteOkList]
+
+theorem siteOkList_iff {p : Nat} {L : List HTree} : siteOkList p L = true ↔ ∀ k ∈ L, siteOk p k = true := by
+  induction L with
+  | nil => simp [siteOkList_nil]
+  | cons a L ih => rw [siteOkList_cons]; simp [ih]
+
+theorem siteOk_top {p : Nat} {k : HTree} (h : siteOk p k = true) (ht : k.value.isText = true) : k.handle ≠ p := by
+  cases k with
+  | node kh kv ks =>
+    simp only [HTree.value] at ht
+    rw [siteOk_node, Bool.and_eq_true] at h
+    intro e
+    simp only [HTree.handle] at e
+    have := h.1
+    simp [e, ht] at this
+
+mutual
+  theorem siteOk_of_not_mem {p : Nat} : ∀ t : HTree, p ∉ handles t → siteOk p t = true
+    | .node h v ks => by
+      intro hn
+      rw [handles_node] at hn
+      simp only [List.mem_cons, not_or] at hn
+      rw [siteOk_node, siteOkList_of_not_mem ks hn.2]
+      have : (h != p) = true := by simpa using fun e => hn.1 e.symm
+      simp [this]
+  theorem siteOkList_of_not_mem {p : Nat} : ∀ ks : List HTree, p ∉ handlesList ks → siteOkList p ks = true
+    | [] => fun _ => siteOkList_nil p
+    | k :: ks => by
+      intro hn
+      rw [handlesList_cons] at hn
+      simp only [List.mem_append, not_or] at hn
+      rw [siteOkList_cons, siteOk_of_not_mem k hn.1, siteOkList_of_not_mem ks hn.2]
+      rfl
+end
+
+mutual
+  theorem siteOk_of_find {p : Nat} {u : HTree} (hu : u.value.isText = false) : ∀ t : HTree, (handles t).Nodup →
+      find? p t = some u → siteOk p t = true
+    | .node h v ks => by
+      intro nd e
+      obtain ⟨n1, n2⟩ := nodup_handles_node nd
+      rw [find?_node] at e
+      rw [siteOk_node]
+      by_cases hh : h = p
+      · rw [if_pos hh] at e
+        have := Option.some.inj e
+        subst this
+        simp only [HTree.value] at hu
+        rw [siteOkList_of_not_mem ks (hh ▸ n1)]
+        simp [hu]
+      · rw [if_neg hh] at e
+        rw [siteOkList_of_find hu ks n2 e]
+        have : (h != p) = true := by simpa using hh
+        simp [this]
+  theorem siteOkList_of_find {p : Nat} {u : HTree} (hu : u.value.isText = false) : ∀ ks : List HTree,
+      (handlesList ks).Nodup → findList? p ks = some u → siteOkList p ks = true
+    | [] => by intro _ e; rw [findList?_nil] at e; cases e
+    | k :: ks => by
+      intro nd e
+      obtain ⟨n1, n2, n3⟩ := nodup_handlesList_cons nd
+      rw [siteOkList_cons]
+      cases hk : find? p k with
+      | some w =>
+        rw [findList?_cons_some hk] at e
+        have := Option.some.inj e
+        subst this
+        rw [siteOk_of_find hu k n1 hk, siteOkList_of_not_mem ks (n3 p (mem_of_find?_some hk))]
+        rfl
+      | none =>
+        rw [findList?_cons_none hk] at e
+        have hpk : p ∉ handles k := by
+          intro hm
+          have := find?_isSome_of_mem k hm
+          rw [hk] at this; cases this
+        rw [siteOk_of_not_mem k hpk, siteOkList_of_find hu ks n2 e]
+        rfl
+end
+
+mutual
+  /-- The leaf property survives an edit of a non-text node's child list. -/
+  theorem kl_editAt {p : Nat} {g : List HTree → List HTree} (hg : ∀ L, klList L = true → klList (g L) = true) :
+      ∀ t : HTree, kl t = true → siteOk p t = true → kl (HTree.editAt p g t) = true
+    | .node h v ks => by
+      intro hk hs
+      rw [kl_node] at hk
+      rw [siteOk_node, Bool.and_eq_true] at hs
+      rw [editAt_node]
+      by_cases hh : h = p
+      · rw [if_pos hh, kl_node]; exact hg ks hk
+      · rw [if_neg hh, kl_node]; exact klList_editAt hg ks hk hs.2
+  theorem klList_editAt {p : Nat} {g : List HTree → List HTree} (hg : ∀ L, klList L = true → klList (g L) = true) :
+      ∀ ks : List HTree, klList ks = true → siteOkList p ks = true →
+      klList (ks.map (HTree.editAt p g)) = true
+    | [] => fun _ _ => klList_nil
+    | k :: ks => by
+      intro hk hs
+      rw [klList_cons, Bool.and_eq_true, Bool.and_eq_true] at hk
+      rw [siteOkList_cons, Bool.and_eq_true] at hs
+      rw [List.map_cons, klList_cons, kl_editAt hg k hk.1.2 hs.1, klList_editAt hg ks hk.2 hs.2, editAt_value]
+      simp only [Bool.and_true, Bool.or_eq_true, Bool.not_eq_true', List.isEmpty_iff]
+      cases ht : k.value.isText with
+      | false => exact Or.inl rfl
+      | true =>
+        right
+        have hkp := siteOk_top hs.1 ht
+        have hkl : k.kids = [] := by
+          have := hk.1.1
+          simpa [ht] using this
+        cases k with
+        | node kh kv kks =>
+          simp only [HTree.kids] at hkl
+          simp only [HTree.handle] at hkp
+          subst hkl
+          rw [editAt_node, if_neg hkp]
+          rfl
+end
+
+mutual
+  /-- `siteOk` survives an edit whose list function keeps it. -/
+  theorem siteOk_editAt {p s : Nat} {g : List HTree → List HTree}
+      (hg : ∀ L, siteOkList p L = true → siteOkList p (g L) = true) :
+      ∀ t : HTree, siteOk p t = true → siteOk p (HTree.editAt s g t) = true
+    | .node h v ks => by
+      intro hs
+      rw [siteOk_node, Bool.and_eq_true] at hs
+      rw [editAt_node]
+      by_cases hh : h = s
+      · rw [if_pos hh, siteOk_node, hs.1, hg ks hs.2]; rfl
+      · rw [if_neg hh, siteOk_node, hs.1, siteOkList_editAt hg ks hs.2]; rfl
+  theorem siteOkList_editAt {p s : Nat} {g : List HTree → List HTree}
+      (hg : ∀ L, siteOkList p L = true → siteOkList p (g L) = true) :
+      ∀ ks : List HTree, siteOkList p ks = true → siteOkList p (ks.map (HTree.editAt s g)) = true
+    | [] => fun _ => siteOkList_nil p
+    | k :: ks => by
+      intro hs
+      rw [siteOkList_cons, Bool.and_eq_true] at hs
+      rw [List.map_cons, siteOkList_cons, siteOk_editAt hg k hs.1, siteOkList_editAt hg ks hs.2]
+      rfl
+end
+
+theorem siteOkList_dropTop (p n : Nat) {L : List HTree} (h : siteOkList p L = true) :
+    siteOkList p (dropTop n L) = true := by
+  rw [siteOkList_iff] at h ⊢
+  intro k hk
+  rw [dropTop_eq_filter] at hk
+  exact h k (List.mem_filter.1 hk).1
+
+theorem siteOkList_insert (p : Nat) (dest : Dest) {t : HTree} {L : List HTree} (h : siteOkList p L = true)
+    (ht : siteOk p t = true) : siteOkList p (dest.insert t L) = true := by
+  rw [siteOkList_iff] at h ⊢
+  intro k hk
+  cases mem_insert hk with
+  | inl e => rw [e]; exact ht
+  | inr e => exact h k e
+
+end XotModel
